@@ -14,6 +14,26 @@ import (
 	"path"
 )
 
+// Encoded sizes used to keep READDIR and READDIRPLUS replies within the
+// client's limit (RFC 1813 sections 3.3.16 and 3.3.17).
+const (
+	// post_op_attr with attributes (4+84) and the cookie verifier (8)
+	dirListHeaderSize = 4 + 84 + 8
+	// "no more entries" marker and the eof flag
+	dirListTrailerSize = 4 + 4
+	// post_op_attr with attributes (4+84) and post_op_fh3 with an 8-byte handle (4+4+8)
+	readdirplusEntryExtra = 4 + 84 + 4 + 4 + 8
+	// limits that hold one entry with a 255-byte name
+	minReaddirReply     = dirListHeaderSize + 4 + 8 + 4 + 256 + 8 + dirListTrailerSize
+	minReaddirplusReply = minReaddirReply + readdirplusEntryExtra
+)
+
+// readdirEntrySize is the encoded size of one entry3: the value-follows flag,
+// fileid, name (length word, bytes, padding to 4) and cookie.
+func readdirEntrySize(name string) int {
+	return 4 + 8 + 4 + (len(name)+3)/4*4 + 8
+}
+
 // handleReaddir handles NFSPROC3_READDIR - read directory entries
 func (h *NFSProcedureHandler) handleReaddir(body io.Reader, reply *RPCReply, authCtx *AuthContext) (*RPCReply, error) {
 	handleVal, err := xdrDecodeFileHandle(body)
@@ -79,21 +99,21 @@ func (h *NFSProcedureHandler) handleReaddir(body io.Reader, reply *RPCReply, aut
 
 	buf.Write(cookieVerf[:])
 
+	// count bounds the size of READDIR3resok (everything after the status word):
+	// the listing stops before the first entry that does not fit, and fails with
+	// NFS3ERR_TOOSMALL when that is the first one asked for. A count that cannot
+	// even hold an empty listing is not a usable limit; it is raised to the size
+	// that holds one entry with the longest name.
 	entryCount := 0
-	maxReplySize := int(count) - 100
-	if maxReplySize < 128 {
-		maxReplySize = 128
+	maxReplySize := int(count)
+	if maxReplySize < dirListHeaderSize+dirListTrailerSize {
+		maxReplySize = minReaddirReply
 	}
 	reachedLimit := false
 
 	for i, entry := range entries {
 		if uint64(i) < cookie {
 			continue
-		}
-
-		if buf.Len() >= maxReplySize {
-			reachedLimit = true
-			break
 		}
 
 		// Skip entries with nil attrs
@@ -105,6 +125,21 @@ func (h *NFSProcedureHandler) handleReaddir(body io.Reader, reply *RPCReply, aut
 		fileId := entry.attrs.FileId
 		entry.mu.RUnlock()
 
+		// M1: Use path.Base() for name extraction
+		name := path.Base(entry.path)
+		if entry.path == "/" {
+			name = "/"
+		}
+
+		// Stop before the entry that would not fit together with the list trailer
+		if buf.Len()-4+readdirEntrySize(name)+dirListTrailerSize > maxReplySize {
+			if entryCount == 0 {
+				return nfsErrorWithPostOp(reply, NFSERR_TOOSMALL), nil
+			}
+			reachedLimit = true
+			break
+		}
+
 		xdrEncodeUint32(&buf, 1)
 
 		// R4: Copy fileId under RLock
@@ -112,11 +147,6 @@ func (h *NFSProcedureHandler) handleReaddir(body io.Reader, reply *RPCReply, aut
 			return nfsErrorWithPostOp(reply, NFSERR_IO), nil
 		}
 
-		// M1: Use path.Base() for name extraction
-		name := path.Base(entry.path)
-		if entry.path == "/" {
-			name = "/"
-		}
 		if err := xdrEncodeString(&buf, name); err != nil {
 			return nfsErrorWithPostOp(reply, NFSERR_IO), nil
 		}
@@ -209,21 +239,17 @@ func (h *NFSProcedureHandler) handleReaddirplus(body io.Reader, reply *RPCReply,
 
 	buf.Write(cookieVerf[:])
 
+	// maxcount bounds the size of READDIRPLUS3resok; see handleReaddir
 	entryCount := 0
 	reachedLimit := false
-	maxReplySize := int(maxCount) - 200
-	if maxReplySize < 256 {
-		maxReplySize = 256
+	maxReplySize := int(maxCount)
+	if maxReplySize < dirListHeaderSize+dirListTrailerSize {
+		maxReplySize = minReaddirplusReply
 	}
 
 	for i, entry := range entries {
 		if uint64(i) < cookie {
 			continue
-		}
-
-		if buf.Len() >= maxReplySize && entryCount > 0 {
-			reachedLimit = true
-			break
 		}
 
 		// Skip entries with nil attrs
@@ -235,6 +261,21 @@ func (h *NFSProcedureHandler) handleReaddirplus(body io.Reader, reply *RPCReply,
 		entryAttrsCopy := *entry.attrs
 		entry.mu.RUnlock()
 
+		// M1: Use path.Base() for name extraction
+		name := path.Base(entry.path)
+		if entry.path == "/" {
+			name = "/"
+		}
+
+		// Stop before the entry that would not fit together with the list trailer
+		if buf.Len()-4+readdirEntrySize(name)+readdirplusEntryExtra+dirListTrailerSize > maxReplySize {
+			if entryCount == 0 {
+				return nfsErrorWithPostOp(reply, NFSERR_TOOSMALL), nil
+			}
+			reachedLimit = true
+			break
+		}
+
 		xdrEncodeUint32(&buf, 1)
 
 		entryCookie := uint64(i + 1)
@@ -243,11 +284,6 @@ func (h *NFSProcedureHandler) handleReaddirplus(body io.Reader, reply *RPCReply,
 			return nfsErrorWithPostOp(reply, NFSERR_IO), nil
 		}
 
-		// M1: Use path.Base() for name extraction
-		name := path.Base(entry.path)
-		if entry.path == "/" {
-			name = "/"
-		}
 		if err := xdrEncodeString(&buf, name); err != nil {
 			return nfsErrorWithPostOp(reply, NFSERR_IO), nil
 		}
